@@ -203,7 +203,7 @@ theorem scanSpec_step (coord : Nat) (t : Int) (pre : List (Item Int)) (st : Scan
     simp only [hx', decide_true, if_true]
     refine ⟨?_, ?_, ?_, ?_⟩
     · simp [List.filter_append, hx, hc]
-    · simp [Lw, List.filter_append, hx, sumW_append, sumW_cons, hwl, sumW]
+    · simp [Lw, List.filter_append, hx, hwl, sumW]
     · intro hn y hy
       rcases List.mem_append.1 hy with hy | hy
       · exact hnone hn y hy
@@ -429,6 +429,69 @@ theorem split_facts (G : Prop) (wt : Int → Int → Bool) (coord : Nat) (sum : 
           rw [hs.wl] at hlt
           simp only [if_true]
           omega
+
+/-! ## Termination of the cut search on integers -/
+
+theorem reorderSplit_int_not_fuel (items : List (Item Int)) (idx coord : Nat) (d : Int) (t : Int)
+    (hn : (scan items coord t).nearest = some (idx, d)) :
+    ∃ l r, reorderSplit items idx coord = .ok (l, r) := by
+  obtain ⟨p, hp, _, _, _⟩ := (scan_spec items coord t).some_min idx d hn
+  obtain ⟨l', r', e1, _⟩ := reorderSplit_spec_aux items idx coord p hp
+    (by
+      intro x _
+      simp only [int_le, int_lt]
+      by_cases hc : p.key coord ≤ x.key coord <;> simp [hc] <;> omega)
+    (by simp [int_lt])
+  exact ⟨l', r', e1⟩
+
+/-- A target that repeats the previous one makes the search return at once. -/
+theorem split_repeat_exits (wt : Int → Int → Bool) (coord : Nat) (sum : Int) (items : List (Item Int))
+    (fuel it : Nat) (mn mx : Int) (mv : Bool) :
+    split wt coord sum items (fuel + 1) it mn mx
+      (some (scan items coord ((mn + mx) / 2)).count) mv ≠ .fuel := by
+  intro h
+  simp only [split, int_add, int_half] at h
+  split at h
+  · simp at h
+  · next idx nd hn =>
+    obtain ⟨l, r, e⟩ := reorderSplit_int_not_fuel items idx coord nd _ hn
+    simp [e] at h
+
+/-- `par_rcb_split` on integer coordinates terminates: fuel `max − min + 2` suffices. -/
+theorem split_terminates_int_aux (wt : Int → Int → Bool) (coord : Nat) (sum : Int)
+    (items : List (Item Int)) :
+    ∀ (fuel it : Nat) (mn mx : Int) (prev : Option Nat) (mv : Bool),
+      mn ≤ mx → (mx - mn).toNat + 2 ≤ fuel →
+      split wt coord sum items fuel it mn mx prev mv ≠ .fuel := by
+  intro fuel
+  induction fuel with
+  | zero => intro it mn mx prev mv _ hf; omega
+  | succ fuel ih =>
+    intro it mn mx prev mv hle hf h
+    have hrec : ∀ (mn' mx' : Int) (mv' : Bool), mn' ≤ mx' →
+        ((mx' - mn').toNat + 1 ≤ (mx - mn).toNat ∨ (mn' + mx') / 2 = (mn + mx) / 2) →
+        split wt coord sum items fuel (it + 1) mn' mx'
+          (some (scan items coord ((mn + mx) / 2)).count) mv' ≠ .fuel := by
+      intro mn' mx' mv' hle' hcase
+      rcases hcase with hc | hc
+      · exact ih _ _ _ _ _ hle' (by omega)
+      · cases fuel with
+        | zero => omega
+        | succ f =>
+          rw [← hc]
+          exact split_repeat_exits wt coord sum items f (it + 1) mn' mx' mv'
+    simp only [split, int_add, int_half] at h
+    split at h
+    · split at h
+      · cases h
+      · exact hrec mn ((mn + mx) / 2) true (by omega) (by omega) h
+    · next idx nd hn =>
+      split at h
+      · obtain ⟨l, r, e⟩ := reorderSplit_int_not_fuel items idx coord nd _ hn
+        simp [e] at h
+      · split at h
+        · exact hrec ((mn + mx) / 2) mx mv (by omega) (by omega) h
+        · exact hrec mn ((mn + mx) / 2) true (by omega) (by omega) h
 
 /-- The low side of a successful search weighs `Lw` of the cut value. -/
 theorem left_weight (items l r : List (Item Int)) (coord : Nat) (v : Int)
